@@ -134,3 +134,77 @@
     }
 //# ob name=slice_bytes_n2_zero fn=value::ops::slice kind=bounded bound="len 2, step 0" stmt="a zero step is an error"
     slice_bytes!(slice_bytes_n2_zero, 2, Some(kani::any()), None, Some(0), 4);
+
+    // ---- slice() end to end: Kani cannot finish on slice() (the drop/iteration glue of every dyn Object is explored
+    // even for byte strings: > 5 min at length 0), so the per-kind glue is covered by a BOUNDED stand-in executed
+    // natively on the property's own box. Not counted as proof.
+//# ob name=slice_box_native role=native_bounded fn=value::ops::slice kind=bounded bound="kinds {bytes, ascii string, multi-byte string, list, tuple, lazy iterable} x len 0..=6 x start,stop in {omitted} U [-9,9] U {i64::MIN, i64::MIN+1, i64::MAX-1, i64::MAX} x step in {omitted} U [-4,4] U {i64::MIN, i64::MIN+1, i64::MAX}: exhaustive (about 3*10^5 slices), native execution of the real function" stmt="slice() returns exactly Python's selection in Python's order with the kind preserved (string from string, bytes from bytes, tuple from tuple, list-like otherwise); step 0 is the only error; no panic"
+    fn slice_box_native() {
+        fn expected_indices(n: usize, start: Option<i64>, stop: Option<i64>, step: i64) -> Vec<usize> {
+            let mut v = Vec::new();
+            if step > 0 {
+                let (lo, hi) = py_fwd(n, start, stop);
+                let mut i = lo;
+                while i < hi { v.push(i as usize); i += step as i128; }
+            } else {
+                let k = (step as i128).unsigned_abs() as u64;
+                let (first, count) = py_back(n, start, stop, k);
+                let mut i = first; let mut c = 0;
+                while c < count { v.push(i as usize); i -= k as i128; c += 1; }
+            }
+            v
+        }
+        let mut bounds: Vec<Option<i64>> = vec![None];
+        for b in -9..=9i64 { bounds.push(Some(b)); }
+        for b in [i64::MIN, i64::MIN + 1, i64::MAX - 1, i64::MAX] { bounds.push(Some(b)); }
+        let mut steps: Vec<Option<i64>> = vec![None];
+        for s in -4..=4i64 { steps.push(Some(s)); }
+        for s in [i64::MIN, i64::MIN + 1, i64::MAX] { steps.push(Some(s)); }
+        let chars_multi = ['a', 'é', '漢', 'b', '😀', 'c'];
+        let mut checked = 0u64;
+        for kind in 0..6u8 {
+            for n in 0..=6usize {
+                for &start in &bounds { for &stop in &bounds { for &step in &steps {
+                    let value = match kind {
+                        0 => Value::from_bytes((0..n as u8).collect()),
+                        1 => Value::from((0..n).map(|i| (b'a' + i as u8) as char).collect::<String>()),
+                        2 => Value::from(chars_multi[..n].iter().collect::<String>()),
+                        3 => Value::from((0..n as i64).map(Value::from).collect::<Vec<_>>()),
+                        4 => Value::from(crate::value::Tuple::from((0..n as i64).map(Value::from).collect::<Vec<_>>())),
+                        _ => Value::make_iterable(move || (0..n as i64).map(Value::from)),
+                    };
+                    let res = slice(value, opt_val(start), opt_val(stop), opt_val(step));
+                    let k = step.unwrap_or(1);
+                    if k == 0 { assert!(res.is_err(), "zero step must fail"); continue; }
+                    let r = match res { Ok(r) => r, Err(e) => panic!("slice failed kind={kind} n={n} {start:?}:{stop:?}:{step:?}: {e}") };
+                    let exp = expected_indices(n, start, stop, k);
+                    let ctx = format!("kind={kind} n={n} [{start:?}:{stop:?}:{step:?}] got {r:?} expected indices {exp:?}");
+                    match kind {
+                        0 => {
+                            let b = r.as_bytes().unwrap_or_else(|| panic!("not bytes: {ctx}"));
+                            assert!(b.iter().map(|x| *x as usize).eq(exp.iter().copied()), "{ctx}");
+                        }
+                        1 => {
+                            let s = r.as_str().unwrap_or_else(|| panic!("not a string: {ctx}"));
+                            assert!(s.chars().eq(exp.iter().map(|i| (b'a' + *i as u8) as char)), "{ctx}");
+                        }
+                        2 => {
+                            let s = r.as_str().unwrap_or_else(|| panic!("not a string: {ctx}"));
+                            assert!(s.chars().eq(exp.iter().map(|i| chars_multi[*i])), "{ctx}");
+                        }
+                        _ => {
+                            assert!(r.is_tuple() == (kind == 4), "tuple-ness not preserved: {ctx}");
+                            assert!(matches!(r.kind(), ValueKind::Seq | ValueKind::Iterable), "not list-like: {ctx}");
+                            let got: Vec<i64> = r.try_iter().unwrap().map(|v| i64::try_from(v).unwrap()).collect();
+                            assert!(got.iter().map(|x| *x as usize).eq(exp.iter().copied()), "{ctx}");
+                            // lazy results must be re-iterable with the same content
+                            let again: Vec<i64> = r.try_iter().unwrap().map(|v| i64::try_from(v).unwrap()).collect();
+                            assert!(got == again, "not re-iterable: {ctx}");
+                        }
+                    }
+                    checked += 1;
+                }}}
+            }
+        }
+        assert!(checked > 250_000);
+    }
